@@ -5825,6 +5825,15 @@ impl BytecodeVM {
                 }
                 _ => {
                     let prop_key = interp.property_key_from_value(key);
+                    // A canonical numeric string ("1") addresses a character like the number does
+                    if let PropertyKey::Index(idx) = prop_key {
+                        return Ok(Guarded::unguarded(
+                            match s.as_str().chars().nth(idx as usize) {
+                                Some(c) => JsValue::String(JsString::from(c.to_string())),
+                                None => JsValue::Undefined,
+                            },
+                        ));
+                    }
                     if let Some(val) = interp.string_prototype.borrow().get_property(&prop_key) {
                         Ok(Guarded::unguarded(val.clone()))
                     } else {
